@@ -21,7 +21,7 @@ let parse_script s =
   else List.map (fun t ->
       let n () = n_of_string (String.sub t 1 (String.length t - 1)) in
       match t.[0] with
-      | 'a' -> TA (n ()) | 'd' -> TD | 'g' -> TG (n ()) | 's' -> TS (n ()) | 'k' -> TK | 't' -> TT
+      | 'a' -> TA (n ()) | 'd' -> TD | 'g' -> TG (n ()) | 's' -> TS (n ()) | 'k' -> TK | 't' -> TT | 'z' -> TZ (n ())
       | _ -> failwith ("script token " ^ t)) (String.split_on_char ',' s)
 
 let kind_of_letter = function "B" -> Bytes | "C" -> Chars | "Y" -> Cycles | "I" -> Items | s -> failwith ("kind " ^ s)
@@ -130,6 +130,7 @@ let ev_of_s (s : string) : n oev =
   else if String.length s >= 3 && String.sub s 0 2 = "pc" then OCallPanic (id_of_s (rest s 2))
   else match s.[0] with
     | 'g' -> OGen (id_of_s (rest s 1))
+    | 'q' -> OGen (id_of_s (rest s 1))   (* user code producing a value (a Clone of a benchmark argument): a generation *)
     | 'n' -> OCount (kind_of_c s.[1], id_of_s (rest s 2))
     | 'c' ->
       (match String.split_on_char '/' (rest s 1) with
